@@ -46,6 +46,13 @@ class _TableMixin:
     """table: dict mapping cut tuple -> value or list of p values."""
 
     def _lookup(self, cuts: np.ndarray) -> np.ndarray:
+        out = self._lookup_float(cuts)
+        # a user-defined scorer may legitimately return an INTEGER-typed array (count costs, integer tables)
+        if getattr(self, "int_out", False) and np.all(out == np.round(out)):
+            return out.astype(np.int64)
+        return out
+
+    def _lookup_float(self, cuts: np.ndarray) -> np.ndarray:
         p = self.p
         out = np.zeros((len(cuts), p))
         rows = []
@@ -68,11 +75,12 @@ class TableCost(_TableMixin, BaseCost):
 
     hash_sign = 1.0
 
-    def __init__(self, table=None, p=1, size=1, log_id=None, param=None):
+    def __init__(self, table=None, p=1, size=1, log_id=None, param=None, int_out=False):
         self.table = table if table is not None else {}
         self.p = p
         self.size = size
         self.log_id = log_id
+        self.int_out = int_out
         super().__init__(param)
 
     @property
@@ -92,12 +100,13 @@ class TableSaving(_TableMixin, BaseSaving):
 
     hash_sign = 1.0
 
-    def __init__(self, table=None, p=1, size=1, log_id=None, n_params=1):
+    def __init__(self, table=None, p=1, size=1, log_id=None, n_params=1, int_out=False):
         self.table = table if table is not None else {}
         self.p = p
         self.size = size
         self.log_id = log_id
         self.n_params = n_params
+        self.int_out = int_out
         super().__init__()
 
     @property
@@ -120,11 +129,12 @@ class TableChangeScore(_TableMixin, BaseChangeScore):
 
     hash_sign = 1.0
 
-    def __init__(self, table=None, p=1, size=1, log_id=None):
+    def __init__(self, table=None, p=1, size=1, log_id=None, int_out=False):
         self.table = table if table is not None else {}
         self.p = p
         self.size = size
         self.log_id = log_id
+        self.int_out = int_out
         super().__init__()
 
     @property
@@ -144,11 +154,12 @@ class TableLocalScore(_TableMixin, BaseLocalAnomalyScore):
 
     hash_sign = 1.0
 
-    def __init__(self, table=None, p=1, size=1, log_id=None):
+    def __init__(self, table=None, p=1, size=1, log_id=None, int_out=False):
         self.table = table if table is not None else {}
         self.p = p
         self.size = size
         self.log_id = log_id
+        self.int_out = int_out
         super().__init__()
 
     @property
